@@ -555,7 +555,8 @@ pub fn check_main(def: &PropDef, tier: Tier) -> i32 {
         },
         "assumptions": def.assumptions,
     });
-    let evdir = verif_dir().join("evidence");
+    // mutant / self-test runs must not overwrite the evidence of the real tree
+    let evdir = std::env::var("VERIF_EVIDENCE_DIR").map(PathBuf::from).unwrap_or_else(|_| verif_dir().join("evidence"));
     std::fs::create_dir_all(&evdir).ok();
     let mut f = std::fs::File::create(evdir.join(format!("{}.json", def.id))).expect("evidence file");
     f.write_all(serde_json::to_string_pretty(&evidence).unwrap().as_bytes()).ok();
